@@ -86,6 +86,10 @@ def _is_const_expr(n, known):
         return n.id in known or (n.id in __builtins__ if isinstance(__builtins__, dict) else hasattr(__builtins__, n.id)) and n.id[:1].isupper()
     if isinstance(n, ast.Call) and isinstance(n.func, ast.Attribute) and n.func.attr in ('lower', 'upper') and not n.args and not n.keywords:
         return _is_const_expr(n.func.value, known)
+    if isinstance(n, ast.Call) and isinstance(n.func, ast.Name) and n.func.id == 'bytes' and len(n.args) == 1 and not n.keywords and isinstance(n.args[0], (ast.List, ast.Tuple)):
+        return all(_is_const_expr(x, known) for x in n.args[0].elts)
+    if isinstance(n, ast.Call) and isinstance(n.func, ast.Attribute) and isinstance(n.func.value, ast.Name) and n.func.value.id == 'bytes' and n.func.attr == 'fromhex' and len(n.args) == 1:
+        return _is_const_expr(n.args[0], known)
     if isinstance(n, ast.Call) and not n.keywords or isinstance(n, ast.Call) and all(k.arg and _is_const_expr(k.value, known) for k in n.keywords):
         f = n.func
         fname = f.id if isinstance(f, ast.Name) else (f.attr if isinstance(f, ast.Attribute) and isinstance(f.value, ast.Name) and f.value.id in ('datetime',) else None)
@@ -219,6 +223,21 @@ class _Fold(ast.NodeTransformer):
             except Exception:
                 return node
         return node
+    def visit_Call(self, node):
+        node = self.generic_visit(node)
+        # bytes([1, 2]) / bytes((1, 2)) / bytes.fromhex("aa55") on literals
+        f = node.func
+        try:
+            if isinstance(f, ast.Name) and f.id == 'bytes' and len(node.args) == 1 and not node.keywords and isinstance(node.args[0], (ast.List, ast.Tuple)) \
+                    and all(isinstance(x, ast.Constant) and isinstance(x.value, int) and not isinstance(x.value, bool) for x in node.args[0].elts):
+                return ast.copy_location(ast.Constant(bytes(x.value for x in node.args[0].elts)), node)
+            if isinstance(f, ast.Attribute) and isinstance(f.value, ast.Name) and f.value.id == 'bytes' and f.attr == 'fromhex' and len(node.args) == 1 \
+                    and isinstance(node.args[0], ast.Constant) and isinstance(node.args[0].value, str):
+                return ast.copy_location(ast.Constant(bytes.fromhex(node.args[0].value)), node)
+        except ValueError:
+            return node
+        return node
+
     def visit_UnaryOp(self, node):
         node = self.generic_visit(node)
         if isinstance(node.op, ast.USub) and isinstance(node.operand, ast.Constant) and isinstance(node.operand.value, (int, float)) and not isinstance(node.operand.value, bool):
@@ -375,13 +394,14 @@ class _Idioms(ast.NodeTransformer):
                     values.append(ast.Constant(lit))
                 if field is None:
                     continue
-                if spec or conv:
+                if spec and ('{' in spec or '}' in spec):
                     return node
                 idx = k if auto else int(field)
                 k += 1
                 if idx >= len(node.args):
                     return node
-                values.append(ast.FormattedValue(value=copy.deepcopy(node.args[idx]), conversion=-1, format_spec=None))
+                values.append(ast.FormattedValue(value=copy.deepcopy(node.args[idx]), conversion=ord(conv) if conv else -1,
+                                                 format_spec=ast.JoinedStr(values=[ast.Constant(spec)]) if spec else None))
             if (k if auto else len({int(p[1]) for p in parts if p[1] is not None})) != len(node.args):
                 return node      # an unused argument would no longer be evaluated
             return _fix(ast.JoinedStr(values=values), node)
